@@ -369,8 +369,8 @@ PROPS = {
                  "(calc and mutating variants, post-state included); the oracle evaluates the continuum clauses with tolerances derived from powPrecision",
  },
  "C11": {
-  "modules": ["OsmoVerif.Props.C11"],
-  "min_theorems": 48,
+  "modules": ["OsmoVerif.Props.C11", "OsmoVerif.Props.C11Refresh"],
+  "min_theorems": 72,
   "fingerprints": [],
   "engines": [{"name": "superfluid", "kind": "app", "n": {"quick": 20000, "thorough": 200000}, "shards": {"quick": 4, "thorough": 16}, "env": NO_EXPORT_IMPORT}],
   "rule": "history 0 of every shard is the scripted witness of the recorded findings; then histories of four classes (random 30%, dust 25%, slash 30%, "
